@@ -6,6 +6,10 @@
 // Determinism of the sync.Pool of handshake objects: GOMAXPROCS(1), automatic GC off; before every case the pool
 // is emptied (two explicit GC cycles), then an optional symmetric "seed" handshake leaves both pooled objects with
 // the same remoteCred.Version/ClientVersion, then the case's handshake runs and re-uses exactly those objects.
+//
+// Sessions (case constructor SESS): several handshakes on the same service objects (same credential checker) for
+// different accounts, accepted and rejected; every returned context is kept alive and the labels of all earlier
+// connections are re-read after every later handshake and at the end (see doSession / genSession).
 package main
 
 import (
@@ -797,6 +801,9 @@ func genSession(r *vlib.Rand) sessSpec {
 		}
 		peerSide := sideSpec{Acc: o.acc, Peer: o.peer, Remote: hubPeer, Ver: versions[r.Intn(len(versions))],
 			List: []uint32{0, 5, 6, 13}, Verify: hubVerify, CV: clientCVs[r.Intn(len(clientCVs))]}
+		if r.Chance(3, 4) { // mostly a version the hub accepts, so that identities decide
+			peerSide.Ver = hubList[r.Intn(len(hubList))]
+		}
 		if r.Chance(1, 8) {
 			peerSide.Verify = r.Bool()
 		}
